@@ -78,6 +78,20 @@ Script_wake == << CompleteP("p", RESOLVED, None, FALSE), CompleteP("p", REJECTED
                   Read("p"), CompleteP("r", RESOLVED, None, FALSE), Subscribe("p", "s2", 20) >>
 Times_wake == {2}
 
+\* --- collide: ids containing ":" make two registrations derive the same task id; the completion of the
+\*     second one meets the task of the first (the store refuses it: the registration must not be lost)
+Setup_collide == << Create("a", 20, None, FALSE, NoTags), Create("a:b", 20, None, FALSE, NoTags), Create("b:c", 20, None, FALSE, NoTags),
+                    Create("c", 20, None, FALSE, NoTags), Callback("b:c", "a", 20), CompleteP("b:c", RESOLVED, None, FALSE), Callback("c", "a:b", 20) >>
+DB_collide == Build(EmptyDB, Setup_collide)
+Script_collide == << CompleteP("c", RESOLVED, None, FALSE), Read("c"), CompleteP("c", REJECTED, None, FALSE), Subscribe("c", "s", 20) >>
+Times_collide == {2}
+
+\* --- overdue: the same collision when the promise reaches its timeout: the time-out sweep meets it too
+Setup_overdue == Setup_collide
+DB_overdue == DB_collide
+Script_overdue == << Read("c"), CompleteP("c", RESOLVED, None, FALSE) >>
+Times_overdue == {2, 25}
+
 \* --- create: creations of a routed promise (with and without a task) race with each other and with its completion
 Setup_create == <<>>
 DB_create == EmptyDB
